@@ -14,7 +14,7 @@ ASSUME = ["a cap/cup pair 'satisfies a snake equation' when the followed leg of 
           "axioms; checked numerically on the code by C09 (normal_form invariance)",
           "bounded: all rigid diagrams over the signature of Snake!Shapes within the model constants"]
 CONST = {"quick": {"MaxBoxes": 4, "MaxWidth": 3, "MaxCC": 4, "ZMax": 2, "replay": 3000},
-         "thorough": {"MaxBoxes": 5, "MaxWidth": 3, "MaxCC": 4, "ZMax": 2, "replay": 60000}}
+         "thorough": {"MaxBoxes": 5, "MaxWidth": 3, "MaxCC": 4, "ZMax": 2, "replay": 20000}}
 MAX_STEPS = 80
 
 
